@@ -118,6 +118,16 @@ CHECKS["C22"] = dict(
     technique="SMT translation validation (z3 NRA) of block extraction against embedding semantics",
     design="§4 C22", engine="E1")
 
+CHECKS["C07"] = dict(
+    level="translation_validation",
+    text="apply_geometry_lowering runs per geometric quantity, cell (interval/triangle/tetrahedron, immersed too) "
+         "and local facet; the lowered expression is denoted over symbolic edge vectors and z3 decides the "
+         "specification predicates (K J = I, Gram-determinant volume identities, circumcentre equation, min/max "
+         "edge lengths, unit/orthogonal/outward normals, ...) for all vertex positions; sign predicates are decided "
+         "as implications under the radical side facts.",
+    technique="SMT validation of lowered geometry against specification predicates (z3 NRA, radical rewriting)",
+    design="§4 C07", engine="E1")
+
 NOT_APPLICABLE = {
     "C11": "Signature injectivity is injectivity of string renderings (repr/str, numpy array printing, float "
            "formatting) composed with sha512: CrossHair cannot confirm it, z3/cvc5 string theories answer unknown, "
